@@ -36,3 +36,6 @@ func (*FlagSet) Int(name string, value int, usage string) *int           { retur
 func (*FlagSet) BoolVar(p *bool, name string, value bool, usage string)  {}
 func (*FlagSet) IntVar(p *int, name string, value int, usage string)     {}
 func (*FlagSet) StringVar(p *string, name string, value string, usage string) {}
+
+// CommandLine mirrors the standard package variable.
+var CommandLine = NewFlagSet("cmd", ContinueOnError)
